@@ -497,6 +497,8 @@ class SymReal:
         b = R(o)
         if _is_zero(b):
             return s
+        if s.e.eq(b):
+            return SymReal(z3.RealVal(0))
         return SymReal(s.e - b)
 
     def __rsub__(s, o):
